@@ -197,6 +197,19 @@ def check_case(b, bp, ref, mi, tree, res: Result, w, rng):
                 if mutated and after != before:
                     res.violation("copy-not-independent", [op, recipe, mutated],
                                   f"{mi.full_name}: mutating ({mutated}) the {op} changed the original: {before.hex()[:120]} -> {after.hex()[:120]}", dict(ww, op=op))
+                # a second copy after the ORIGINAL has grown through its containers / descendants must show the growth
+                try:
+                    from ..values import grow_in_place
+
+                    if grow_in_place(b, a2, mi):
+                        c2 = {"deepcopy": copy.deepcopy, "pickle": lambda x: pickle.loads(pickle.dumps(x))}[op](a2)
+                        res.note("copies_after_growth")
+                        if bytes(c2) != bytes(a2):
+                            res.violation("copy-unfaithful", [op, recipe, "second-copy-after-in-place-growth", "stale"],
+                                          f"{mi.full_name}: {op} taken again after the original grew in place: original {bytes(a2).hex()[:120]} copy {bytes(c2).hex()[:120]}",
+                                          dict(ww, op=op))
+                except Exception as e:
+                    res.note("copy-after-growth-raised:" + type(e).__name__)
                 # decoding more data into the copy (known + unknown records) is a mutation of the copy only
                 try:
                     more = wg.unknown_record(known) + (ab[: 0] if not ab else b"") + wg.unknown_record(known)
